@@ -113,9 +113,11 @@ def build_store_project(root, scn):
     g = scn.get("git")
     if g:
         # g["sha256"]: a repository whose object ids are SHA-256 (64 hex digits) - `git init --object-format=sha256`
-        P.git(root, "init", "-q", *(["--object-format=sha256"] if g.get("sha256") else []))
-        with open(os.path.join(root, ".gitignore"), "w") as f:
-            f.write("cond-out/\n.ctl/\n")
+        # g["nested"]: the repository's top directory is the PARENT of the project root (the project is a sub-directory of it)
+        top = os.path.join(root, "..") if g.get("nested") else root
+        P.git(top, "init", "-q", *(["--object-format=sha256"] if g.get("sha256") else []))
+        with open(os.path.join(top, ".gitignore"), "w") as f:
+            f.write("cond-out/\n.ctl/\n*.tar.gz\nstdout.*.txt\nstderr.*.txt\nstuck.*.txt\nwatch.*\n")
         commits = []
         for i in range(g.get("commits", 1)):
             with open(os.path.join(root, "f.txt"), "w") as f:
@@ -525,6 +527,7 @@ def run_history(scn):
         before = CLI.project_store(root)
         obefore = outside_digest(root)
         clock = scn.get("clock0", 100)
+        git_off = False
         for st in scn["steps"]:
             cmd = st["cmd"]
             if cmd == "plant":
@@ -554,6 +557,12 @@ def run_history(scn):
                 continue
             if cmd == "damage":
                 damage_archive(os.path.join(root, st["archive"]), st["how"], st.get("arg"))
+                continue
+            if cmd == "setconfig":
+                # the project's configuration changes between invocations (e.g. git integration switched off)
+                with open(os.path.join(root, "cond_config.toml"), "w") as f:
+                    f.write(st["text"])
+                git_off = "disable_git = true" in st["text"]
                 continue
             if cmd == "bulk":
                 # many more recorded versions (as a long-lived project has): rows + finished directories written directly
@@ -621,7 +630,7 @@ def run_history(scn):
             argv = [commits[int(a[len("@commit"):])] if isinstance(a, str) and a.startswith("@commit") and commits else a
                     for a in st["argv"]]
             head, dirty = None, False
-            if scn.get("git") and cmd == "run":
+            if scn.get("git") and cmd == "run" and not git_off:
                 head = P.git(root, "rev-parse", "HEAD", check=False) or None
                 dirty = subprocess.run(["git", "diff-index", "--quiet", "HEAD"], cwd=root).returncode != 0
             tgt_root = os.path.join(d, st["project"]) if st.get("project") else root
